@@ -231,6 +231,24 @@ def match_known(pid, sig):
             return k
     return None
 
+def replay_input():
+    """`bin/vcheck Cxx --replay <file>`: the input of a stored replay file (an antenna description, or a command line), which the
+    check then tries FIRST, before its generated cases; None otherwise"""
+    path = os.environ.get('VERIF_REPLAY')
+    if not path or not os.path.exists(path):
+        return None
+    try:
+        inp = json.load(open(path)).get('input')
+    except Exception:
+        return None
+    if isinstance(inp, dict) and isinstance(inp.get('spec'), dict) and 'wires' in inp['spec']:
+        inp = inp['spec']
+    if isinstance(inp, dict) and 'wires' in inp:
+        return dict(kind='spec', value=inp)
+    if isinstance(inp, dict) and inp.get('argv'):
+        return dict(kind='argv', value=inp['argv'], version=inp.get('version'))
+    return None
+
 def report_error(chk, stage, x):
     """An exception while running a case: raised inside the repository's code
     -> candidate violation (C20-like crash); raised by the harness itself ->
